@@ -1,6 +1,7 @@
 package main
 
 import (
+	"path/filepath"
 	"flag"
 	"fmt"
 	"os"
@@ -26,6 +27,13 @@ func main() {
 func verifRoot() string {
 	if r := os.Getenv("VERIF_ROOT"); r != "" {
 		return r
+	}
+	// the directory above bin/ (so that a snapshot of /verif works on its own files)
+	if exe, err := os.Executable(); err == nil {
+		root := filepath.Dir(filepath.Dir(exe))
+		if _, err := os.Stat(filepath.Join(root, "props.json")); err == nil {
+			return root
+		}
 	}
 	return "/verif"
 }
